@@ -119,11 +119,155 @@ def judge(ck, hists, meta, stats):
         ck.sample({"programs": m["progs"], "schedule": m["sched"][:30], "history": m["history"]}, limit=2)
 
 
+# ------------------------------------------------------------------------------------------------
+# server level: the same oracle on the gRPC handlers of the real kyrodb_server
+# ------------------------------------------------------------------------------------------------
+SRV_M = {1: {"k1": 1, "k2": 0}, 2: {"k1": 0, "k2": 1}, 3: {"k1": 0, "k2": 0}, 5: {"k1": 2, "k2": 1}, 6: {"k1": 1, "k2": 2}}   # write v carries metadata SRV_M[v]
+
+
+def srv_vec(v):
+    return [float(v), 0.0, 0.0, 1.0]          # Euclidean, stored as sent: exact
+
+
+def srv_meta(m, rng):
+    md = {k: "val%d" % x for k, x in m.items() if x}
+    if rng.random() < 0.5:
+        md["pad"] = "x" * rng.choice([1, 200, 900, 2500])     # timing jitter; not part of the projection
+    return md
+
+
+def srv_doc(ans):
+    """Query answer -> Doc record of KV.tla"""
+    if not ans or not ans.get("found"):
+        return {"p": False, "v": 0, "m": {"k1": 0, "k2": 0}}
+    e = ans.get("embedding") or []
+    md = ans.get("metadata") or {}
+    num = lambda s: int(s[3:]) if isinstance(s, str) and s.startswith("val") and s[3:].isdigit() else 0
+    return {"p": True, "v": int(round(e[0])) if e and isinstance(e[0], (int, float)) else 0, "m": {"k1": num(md.get("k1")), "k2": num(md.get("k2"))}}
+
+
+def srv_request(s, op, rng):
+    t, i = op["t"], op.get("id", 0)
+    if t == "insert":
+        return s.req("Insert", None, doc_id=i, embedding=srv_vec(op["v"]), metadata=srv_meta(SRV_M[op["v"]], rng)), dict(op, m=SRV_M[op["v"]])
+    if t == "delete":
+        return s.req("Delete", None, doc_id=i), op
+    if t == "umeta":
+        return s.req("UpdateMetadata", None, doc_id=i, metadata=srv_meta(op["m"], rng) if op["merge"] else {k: "val%d" % x for k, x in op["m"].items() if x},
+                     merge=bool(op["merge"])), op
+    if t == "getwm":
+        return s.req("Query", None, doc_id=i, include_embedding=True), op
+    if t in ("get", "aware"):
+        return s.req("Query", None, doc_id=i, include_embedding=False), dict(op, t="getmeta")      # found + metadata
+    if t == "bulkget":
+        return s.req("BulkQuery", None, doc_ids=list(op["ids"]), include_embeddings=True), op
+    raise vlib.ToolError("server part: unknown op %s" % t)
+
+
+def srv_events(ops, recs, oid0):
+    """inv / res events of one concurrent group (all calls overlap), bulk reads per document"""
+    inv, res, n, ok = [], [], oid0, True
+    for op, rec in zip(ops, recs):
+        if rec.get("status") != "OK":
+            return [], n, False
+        a = rec.get("resp") or {}
+        subs = [("getwm", i, (a.get("results") or [])[j] if j < len(a.get("results") or []) else None) for j, i in enumerate(op["ids"]) if 1 <= i <= NI] \
+            if op["t"] == "bulkget" else [(op["t"], op["id"], a)]
+        for t, i, ans in subs:
+            n += 1
+            inv.append({"e": "inv", "o": n, "op": {"t": t, "id": i, "v": op.get("v", 0), "m": norm_meta(op.get("m")), "merge": bool(op.get("merge", False))}})
+            if t == "insert":
+                r = {"f": True, "v": 0, "m": {"k1": 0, "k2": 0}}
+            elif t in ("delete", "umeta"):
+                r = {"f": bool(ans.get("existed")), "v": 0, "m": {"k1": 0, "k2": 0}}
+            else:
+                d = srv_doc(ans)
+                r = {"f": d["p"], "v": d["v"] if t == "getwm" else 0, "m": d["m"]}
+            res.append({"e": "res", "o": n, "r": r})
+    return inv + res, n, ok
+
+
+def server_part(ck, tier, rng, stats, only=None):
+    """TLC-enumerated groups of 2 (3) concurrent RPCs on one id, run as concurrent requests against the real server;
+    every group becomes a history (state before from a quiescent BulkQuery, the concurrent calls, a quiescent read-back)
+    judged by Linearize.tla."""
+    import srvlib
+    srvlib.build_server()
+    if only is None:
+        r = tlc("ConcGen", consts={"MaxLen": 1, "NThreads": 2, "WithSnapshot": "FALSE", "SharedIds": "{1}"}, workers=2, timeout=600)
+        ck.add_tlc("ConcGen (server groups: 2 concurrent RPCs on id 1)", r)
+        pool = sorted(r.json_lines, key=lambda x: json.dumps(x, sort_keys=True))
+        if tier == "thorough":
+            r3 = tlc("ConcGen", consts={"MaxLen": 1, "NThreads": 3, "WithSnapshot": "FALSE", "SharedIds": "{1}"}, workers=2, timeout=600)
+            ck.add_tlc("ConcGen (server groups: 3 concurrent RPCs)", r3)
+            pool += rng.sample(sorted(r3.json_lines, key=lambda x: json.dumps(x, sort_keys=True)), 60)
+        reps = 24 if tier == "quick" else 250
+    else:
+        pool, reps = [only], 400
+    groups = [[p[0] for p in g] for g in pool] * reps
+    rng.shuffle(groups)
+    hists, meta = [], []
+    with srvlib.Server(config={"hnsw": {"dimension": 4, "distance": "euclidean"}}, name="c05") as s:
+        census = lambda: s.req("BulkQuery", None, doc_ids=[1, 2, 3, 4], include_embeddings=True)
+        reqs, plan = [s.req("Insert", None, doc_id=3, embedding=srv_vec(3), metadata=srv_meta(SRV_M[3], rng))], []
+        for gi, g in enumerate(groups):
+            base = rng.choice([1, 2])
+            pre = [s.req("Insert", None, doc_id=1, embedding=srv_vec(base), metadata=srv_meta(SRV_M[base], rng))] if rng.random() < 0.8 else []
+            conc = []
+            for op in g:
+                q, aop = srv_request(s, op, rng)
+                q["par"] = "g%d" % gi
+                conc.append((q, aop))
+            rng.shuffle(conc)
+            plan.append((len(reqs) + len(pre), len(conc), [aop for _, aop in conc]))
+            reqs += pre + [census()] + [q for q, _ in conc] + [census()]
+        recs = s.run_script(reqs, total_timeout=1200)
+    for at, n, ops in plan:
+        before, after = recs[at], recs[at + 1 + n]
+        if before.get("status") != "OK" or after.get("status") != "OK":
+            stats["server_void"] += 1
+            continue
+        init = [srv_doc(x) for x in before["resp"]["results"]][:NI]
+        ev, oid, ok = srv_events(ops, recs[at + 1: at + 1 + n], 0)
+        if not ok or not ev:
+            stats["server_void"] += 1
+            continue
+        # quiescent read-back of id 1 (after every call of the group has returned)
+        d = srv_doc(after["resp"]["results"][0])
+        ev += [{"e": "inv", "o": oid + 1, "op": {"t": "getwm", "id": 1, "v": 0, "m": {"k1": 0, "k2": 0}, "merge": False}},
+               {"e": "res", "o": oid + 1, "r": {"f": d["p"], "v": d["v"], "m": d["m"]}}]
+        hists.append({"init": init, "ev": ev})
+        meta.append({"ops": ops, "before": init, "answers": [x.get("resp") for x in recs[at + 1: at + 1 + n]], "after": d})
+    stats["server_groups"] += len(hists)
+    if not hists:
+        raise vlib.ToolError("server part produced no history")
+    hp = os.path.join(scratch(), "c05.srv.hists.ndjson")
+    with open(hp, "w") as f:
+        for h in hists:
+            f.write(json.dumps(h) + "\n")
+    r = tlc("Linearize", consts=CONSTS, env={"HISTS": hp}, workers=6, timeout=1800, xmx="8g")
+    ck.add_tlc("Linearize search over %d server-level groups" % len(hists), r)
+    acc = {int(line.split(",")[1].strip(" >")) for line in r.printed if "ACCEPTED" in line}
+    for i, m in enumerate(meta):
+        if (i + 1) in acc:
+            continue
+        stats["server_rejected"] += 1
+        ck.violation({"kind": "server", "group": m["ops"], "before": m["before"], "answers": m["answers"], "after": m["after"]},
+                     "server: concurrent RPCs %s from state %s are not linearizable: answers %s, afterwards %s"
+                     % (json.dumps([(o["t"], o.get("v", 0)) for o in m["ops"]]), json.dumps(m["before"][0]),
+                        json.dumps([srv_doc(a) if o["t"] in ("getwm", "getmeta") else (a or {}).get("existed", "ok") for o, a in zip(m["ops"], m["answers"])]),
+                        json.dumps(m["after"])))
+    ck.cov["traces_validated_against_impl"] += len(acc)
+    if meta:
+        ck.sample({"server_group": meta[0]["ops"], "before": meta[0]["before"][0], "answers": meta[0]["answers"], "after": meta[0]["after"]}, limit=3)
+
+
 def run(tier):
     ck = Check("C05", tier)
     vlib.build()
     rng = random.Random(seed())
-    stats = {"combinations": 0, "schedules_enumerated": 0, "replays": 0, "stuck": 0, "diverged": 0, "skipped": 0, "rejected": 0}
+    stats = {"combinations": 0, "schedules_enumerated": 0, "replays": 0, "stuck": 0, "diverged": 0, "skipped": 0, "rejected": 0,
+             "server_groups": 0, "server_void": 0, "server_rejected": 0}
     r = tlc("ConcGen", consts={"MaxLen": 2, "NThreads": 2, "WithSnapshot": "FALSE"}, workers=4, timeout=600)
     ck.add_tlc("ConcGen (2 threads, <= 2 ops)", r)
     pool = sorted(r.json_lines, key=lambda x: json.dumps(x, sort_keys=True))
@@ -141,7 +285,10 @@ def run(tier):
         stats["combinations"] += 1
         explore_combo(ck, ci, progs, tier, rng, stats, hists, meta)
     judge(ck, hists, meta, stats)
-    ck.assumptions += ["preemption only at lock operations and API boundaries (all shared state of these paths is behind locks)",
+    server_part(ck, tier, rng, stats)
+    ck.assumptions += ["server level: no schedule control over the server process - every group of concurrent RPCs is repeated with "
+                       "timing jitter; any observed history is judged soundly (calls of a group overlap, groups are separated by quiescent reads)",
+                       "preemption only at lock operations and API boundaries (all shared state of these paths is behind locks)",
                        "bulk reads are judged per document (the property is per-document linearizability)"]
     return ck.finish(dict(stats, constants=CONSTS))
 
@@ -150,7 +297,10 @@ def replay(path):
     rep = json.load(open(path))
     ck = Check("C05", "quick")
     vlib.build()
-    stats = {"rejected": 0}
+    stats = {"rejected": 0, "server_groups": 0, "server_void": 0, "server_rejected": 0}
+    if rep.get("kind") == "server":
+        server_part(ck, "quick", random.Random(seed()), stats, only=[[dict(o, t="get") if o["t"] == "getmeta" else o] for o in rep["group"]])
+        return ck.finish(stats)
     reports = sc.run_many(rep.get("state", "base"), rep["progs"], [{"sched": rep["sched"]}])
     hists, meta = [], []
     for r in reports:
